@@ -346,6 +346,42 @@ def _setless_of(ident, x):
 # ------------------------------------------------------------------------------------------------
 # C05
 # ------------------------------------------------------------------------------------------------
+def _reach(scn, user, holder):
+    """May `user` fetch a state from `holder`'s own pool (the rule of SourcedStateBackend.get_source_scope)?"""
+    scopes = str(scn.params.get("pool_scope", "own swarm cluster shared")).split()
+    if user == holder:
+        return True
+    su = user.split(".")[0] if "." in user else "localhost"
+    sh = holder.split(".")[0] if "." in holder else "localhost"
+    return ("swarm" in scopes) if su == sh else ("cluster" in scopes)
+
+
+def _holders(scn, tr, upto, suffix, state):
+    """Pools holding the state after the first `upto` events of the trace: 'shared' and/or worker ids (their own pools)."""
+    h = set()
+    if (suffix, state) in scn.shared:
+        h.add("shared")
+    for w, items in scn.own.items():
+        if (suffix, state) in items:
+            h.add(w)
+    starts_ = {}
+    for v in tr[:upto]:
+        if v["k"] == "start":
+            starts_[v["seq"]] = v
+        elif v["k"] == "end" and v["status"] == "PASS":
+            st = starts_.get(v["seq"])
+            if st and any(g[0] == suffix and g[2] == state for g in st["sets"]):
+                h.add(v["w"])
+        elif v["k"] == "door" and v["do"] == "unset" and any(it[0] == suffix and it[2] == state for it in v["items"]):
+            h.discard(v["w"])
+    return h
+
+
+def _available(scn, user, holders):
+    scopes = str(scn.params.get("pool_scope", "own swarm cluster shared")).split()
+    return any((h == "shared" and "shared" in scopes) or (h != "shared" and _reach(scn, user, h)) for h in holders)
+
+
 def c05(scn, x):
     out = []
     pool_filter = str(scn.params.get("pool_filter", "reuse"))
@@ -374,23 +410,37 @@ def c05(scn, x):
                 elif u["k"] == "end":
                     running.pop(u["seq"], None)
             for u in running.values():
-                if any(g[0] == suffix and g[2] == state for g in u["gets"]):
+                # the copy in the remover's own pool goes: it matters to a dependant that could use it and is left with no other copy
+                if any(g[0] == suffix and g[2] == state for g in u["gets"]) and _reach(scn, u["w"], e["w"]) \
+                        and not _available(scn, u["w"], _holders(scn, tr, idx + 1, suffix, state)):
                     out.append({"what": f"state {state} of {suffix} removed by {e['w']} at t={e['t']} while dependant {u['short']} is running on {u['w']}",
                                 "signature": {"clause": "removed-while-running", "state": state}})
-            recreated = False
+            scopes = str(scn.params.get("pool_scope", "own swarm cluster shared")).split()
+
+            def reach(user, holder):
+                """May `user` fetch a state from `holder`'s own pool (the rule of SourcedStateBackend.get_source_scope)?"""
+                if user == holder:
+                    return True
+                su = user.split(".")[0] if "." in user else "localhost"
+                sh = holder.split(".")[0] if "." in holder else "localhost"
+                return ("swarm" in scopes) if su == sh else ("cluster" in scopes)
+
+            recreated_by = []
             for u in tr[idx + 1:]:
                 if u["k"] == "end" and u["status"] == "PASS":
                     st = next(s for s in tr if s["k"] == "start" and s["seq"] == u["seq"])
                     if any(g[0] == suffix and g[2] == state for g in st["sets"]):
-                        recreated = True
-                elif u["k"] == "start" and not recreated:
-                    if any(g[0] == suffix and g[2] == state for g in u["gets"]):
+                        recreated_by.append(u["w"])
+                elif u["k"] == "start" and reach(u["w"], e["w"]) and not any(reach(u["w"], c) for c in recreated_by):
+                    if any(g[0] == suffix and g[2] == state for g in u["gets"]) \
+                            and not _available(scn, u["w"], _holders(scn, tr, tr.index(u), suffix, state)):
                         # had the dependant's worker already taken part in the producer (examined or executed it) when the state was removed?
                         involved = any(v["k"] in ("start", "door") and v["w"] == u["w"] and v.get("ident") == e.get("ident") for v in tr[:idx])
                         out.append({"what": f"state {state} of {suffix} removed by {e['w']} at t={e['t']} but dependant {u['short']} "
                                             f"starts on {u['w']} at t={u['t']} (pending at removal time)",
                                     "signature": {"clause": "removed-before-dependant", "cross_worker": u["w"] != e["w"],
-                                                  "dependant_worker_involved_before_removal": involved}})
+                                                  "dependant_worker_involved_before_removal": involved, "lazy": bool(scn.lazy),
+                                                  "scope": "run" if ("swarm" in scopes and "cluster" in scopes) else ("swarm" if "swarm" in scopes else "worker")}})
     return out
 
 
